@@ -22,6 +22,10 @@ results = []
 for p in patches:
     name = os.path.basename(p) if p.endswith(".patch") else os.path.basename(os.path.dirname(p))
     props = props_override or re.findall(r"C\d\d", name)[:1]
+    mj = os.path.join(os.path.dirname(p), "meta.json")
+    if not props and os.path.exists(mj):
+        import json
+        props = [json.load(open(mj))["property"]]
     r = subprocess.run(["git", "-C", "/repo", "apply", p], capture_output=True, text=True)
     if r.returncode != 0:
         print(f"{name}: PATCH DOES NOT APPLY: {r.stderr.strip()[:200]}")
